@@ -8,12 +8,14 @@
 #include <dirent.h>
 #include <fcntl.h>
 #include <signal.h>
+#include <sys/resource.h>
 #include <sys/stat.h>
 #include <sys/types.h>
 #include <sys/wait.h>
 #include <unistd.h>
 
 #include <algorithm>
+#include <cstring>
 #include <atomic>
 #include <functional>
 #include <mutex>
@@ -88,6 +90,7 @@ struct RunResult {
   int exit_code = -1; // exit status, or 128+signal, or -2 for timeout
   bool timed_out = false;
   double wall = 0.;
+  double cpu = 0.; // user + system time of the process (and the children it waited for)
   std::string describe() const {
     if (timed_out)
       return "timeout (killed)";
@@ -134,21 +137,24 @@ inline RunResult run_in(const std::string &dir, const std::vector< std::string >
     _exit(127);
   }
   int status = 0;
+  struct rusage ru;
+  memset(&ru, 0, sizeof(ru));
   for (;;) {
-    pid_t w = waitpid(pid, &status, WNOHANG);
+    pid_t w = wait4(pid, &status, WNOHANG, &ru);
     if (w == pid)
       break;
     double el =
         std::chrono::duration< double >(std::chrono::steady_clock::now() - t0).count();
     if (el > timeout_s) {
       kill(pid, SIGKILL);
-      waitpid(pid, &status, 0);
+      wait4(pid, &status, 0, &ru);
       r.timed_out = true;
       break;
     }
     usleep(el < 0.2 ? 1000 : 10000);
   }
   r.wall = std::chrono::duration< double >(std::chrono::steady_clock::now() - t0).count();
+  r.cpu = ru.ru_utime.tv_sec + ru.ru_stime.tv_sec + 1.e-6 * (ru.ru_utime.tv_usec + ru.ru_stime.tv_usec);
   if (r.timed_out)
     r.exit_code = -2;
   else if (WIFEXITED(status))
